@@ -60,12 +60,16 @@ static void op_churn(const Step& s) {
 	}
 	count(c_churn_ops);
 }
+// used only by `vsim selftest known`: a deliberate violation, to exercise the known-findings path
+static void op_selftest_violation(const Step& s) { violation(s.lit, "selftest-site", "deliberate violation raised by the driver self-test"); }
+
 static void churn_final() { for (auto& p : churn_pool()) ::operator delete(p.first); churn_pool().clear(); }
 
 void execute_plan(const Plan& plan) {
 	g_plan = &plan; g_profile = plan.profile; g_tier = plan.tier; g_nclients = plan.clients > 0 ? plan.clients : 1;
 	register_op("abort", op_abort);
 	register_op("churn", op_churn);
+	register_op("selftest_violation", op_selftest_violation);
 	register_expl_ops();
 	register_fa_ops();
 	register_bdd_ops();
